@@ -600,7 +600,11 @@ def _append_loops(fn):
                         bound = set()
                         for g in gens:
                             bound |= {n.id for n in ast.walk(g.target) if isinstance(n, ast.Name)}
-                        if mentions == 1 and is_pure(elt) and all(is_pure(g.iter) and all(is_pure(c) for c in g.ifs) for g in gens):
+                        # the element may have effects (they happen in the same order in the comprehension); what must hold is
+                        # that the loop variables do not leak (a comprehension has its own scope) and the guards are pure
+                        loop_nodes = {id(n) for n in ast.walk(block[j])}
+                        leaks = any(isinstance(n, ast.Name) and n.id in bound and id(n) not in loop_nodes for n in walk_local(fn))
+                        if mentions == 1 and (is_pure(elt) or not leaks) and all(is_pure(g.iter) and all(is_pure(c) for c in g.ifs) for g in gens):
                             comp = ast.ListComp(elt=elt, generators=gens)
                             ast.copy_location(comp, block[j])
                             new = ast.Assign(targets=[st.targets[0]], value=comp, type_comment=None)
